@@ -11,20 +11,22 @@ func (k *ExtendedKey) VerifWF() bool {
 }
 
 // verifParseOfString is a lemma (build tag verif only, never called): C14 "parsing a serialised key returns an equal
-// key", for private keys, as a consequence of the contracts of String, NewKeyFromString and the assumed base-58 round trip.
+// key", as a consequence of the contracts of String, NewKeyFromString and the assumed base-58 round trip.
 func verifParseOfString(k *ExtendedKey) (*ExtendedKey, error) {
 	return NewKeyFromString(k.String())
 }
 
 //@ func verifParseOfString
 //@   props C14
-//@   requires wf(k) && k.isPrivate && len(k.pubKey) <= 33
+// a public key is a compressed point: first byte 2 or 3 (what separates it from the 0x00 marker of a private key)
+//@   requires wf(k) && len(k.pubKey) <= 33 && (!k.isPrivate ==> k.key[0] == 2 || k.key[0] == 3)
 //@   modifies k, gmap("bigval")
-//@   ensures[C14] err == nil || err == ErrUnusableSeed
-//@   ensures[C14] err == nil ==> result.isPrivate && result.depth == k.depth && result.childNum == k.childNum
+//@   ensures[C14] k.isPrivate ==> err == nil || err == ErrUnusableSeed
+//@   ensures[C14] err == nil ==> result.isPrivate == k.isPrivate && result.depth == k.depth && result.childNum == k.childNum
 //@   ensures[C14] err == nil ==> strOf(result.version[0:4]) == strOf(k.version[0:4]) && strOf(result.parentFP[0:4]) == strOf(k.parentFP[0:4])
 //@   ensures[C14] err == nil ==> strOf(result.chainCode[0:32]) == strOf(k.chainCode[0:32])
-//@   ensures[C14] err == nil ==> strOf(result.key[0:32]) == strOf(k.key[0:32])
+//@   ensures[C14] err == nil && k.isPrivate ==> strOf(result.key[0:32]) == strOf(k.key[0:32])
+//@   ensures[C14] err == nil && !k.isPrivate ==> strOf(result.key[0:33]) == strOf(k.key[0:33])
 
 // H4 (serialisation helper): result = dst ++ 0^(max(0,size-len(src))) ++ src
 //@ func paddedAppend
@@ -127,6 +129,17 @@ func verifParseOfString(k *ExtendedKey) (*ExtendedKey, error) {
 //@   ensures[C14] old(k.isPrivate && len(k.key) == 32) ==> ghosts("b58dec", result)[13:45] == strOf(k.chainCode[0:32])
 //@   ensures[C14] old(k.isPrivate && len(k.key) == 32) ==> sbyteAt(ghosts("b58dec", result), 45) == 0 && ghosts("b58dec", result)[46:78] == strOf(k.key[0:32])
 //@   ensures[C14] old(k.isPrivate && len(k.key) == 32) ==> ghosts("b58dec", result)[78:82] == ghosts("sha256d", ghosts("b58dec", result)[0:78])[0:4]
+// only the cached public key of a private key may be filled in
+//@   ensures k.isPrivate == old(k.isPrivate) && sameSlice(k.key, old(k.key)) && k.depth == old(k.depth) && k.childNum == old(k.childNum)
+// public keys: same header, then the 33-byte compressed key itself
+//@   ensures[C14] old(!k.isPrivate && len(k.key) == 33) ==> len(ghosts("b58dec", result)) == 82
+//@   ensures[C14] old(!k.isPrivate && len(k.key) == 33) ==> ghosts("b58dec", result)[0:4] == strOf(k.version[0:4])
+//@   ensures[C14] old(!k.isPrivate && len(k.key) == 33) ==> sbyteAt(ghosts("b58dec", result), 4) == k.depth
+//@   ensures[C14] old(!k.isPrivate && len(k.key) == 33) ==> ghosts("b58dec", result)[5:9] == strOf(k.parentFP[0:4])
+//@   ensures[C14] old(!k.isPrivate && len(k.key) == 33) ==> mathint(k.childNum) == mathint(sbyteAt(ghosts("b58dec", result), 9))*16777216 + mathint(sbyteAt(ghosts("b58dec", result), 10))*65536 + mathint(sbyteAt(ghosts("b58dec", result), 11))*256 + mathint(sbyteAt(ghosts("b58dec", result), 12))
+//@   ensures[C14] old(!k.isPrivate && len(k.key) == 33) ==> ghosts("b58dec", result)[13:45] == strOf(k.chainCode[0:32])
+//@   ensures[C14] old(!k.isPrivate && len(k.key) == 33) ==> ghosts("b58dec", result)[45:78] == strOf(k.key[0:33])
+//@   ensures[C14] old(!k.isPrivate && len(k.key) == 33) ==> ghosts("b58dec", result)[78:82] == ghosts("sha256d", ghosts("b58dec", result)[0:78])[0:4]
 //@   at "if k.isPrivate {..." assert[C14] len(serializedBytes) == 45 && bytesEq(serializedBytes, 13, k.chainCode, 0, 32)
 //@   at "checkSum := wire.DoubleHashB(serializedBytes)[:4]" assert[C14] len(serializedBytes) >= 45 && bytesEq(serializedBytes, 13, k.chainCode, 0, 32)
 //@   at "serializedBytes = paddedAppend(32, serializedBytes, k.key)" assert[C14] len(serializedBytes) == 46 && serializedBytes[45] == 0 && disjoint(serializedBytes, k.key)
